@@ -68,6 +68,11 @@ CLAIMS = {
         design_ref="DESIGN.md §3 C12",
         note="Behaviour under permutation/duplication of fragments and gap limits is not decided. Trusted base as C17.",
         technique="static analysis: guard must-pass-through, value-origin shapes, who-may-write over rustc MIR"),
+    'C16': dict(
+        text="Guard/pairing rules: no frame handed to the device on a link-layer medium before lookup_hardware_addr succeeded, destination = its result; a discovery request only after NotFound and always followed by limit_rate; Ok only from a cache hit or group mapping; cache filled only by ARP/NDISC handlers behind their validation guards; Found only while unexpired, NotFound only after the silence timer (also for expired entries); 60 s / 1 s constants; route choice = filter(expires_at, contains) + max prefix; failing emit writes no TCP sequence variable.",
+        design_ref="DESIGN.md §3 C16",
+        note="Timing traces over long histories and cache eviction are not decided. Trusted base as C17.",
+        technique="static analysis: guard must-pass-through, ordering/pairing, who-may-call, constants over rustc MIR"),
 }
 
 NOT_YET = "structural rules for this property are not built yet in this revision; no static claim is made"
